@@ -13,7 +13,7 @@ NEED_JSONSCHEMA = True
 SHARDS = {"quick": 8, "thorough": 16}
 TIME_CAP = {"quick": 70, "thorough": 900}
 REQUIRED = ["semantic_comparisons", "vocabulary_walks", "programs", "version:DRAFT_2019_09", "version:DRAFT_7", "version:OPEN_API_3_0", "version:OPEN_API_3_1",
-            "kw:prefixItems-source", "kw:dependentRequired-source", "kw:const-source", "kw:$defs-source", "kw:type-array-source", "nested_positions_walked"]
+            "kw:prefixItems-source", "kw:dependentRequired-source", "kw:const-source", "kw:$defs-source", "kw:type-array-source", "nested_positions_walked", "merged_definitions_walks"]
 RULE = ("program space of C17 (every keyword the builder emits: tuples/prefixItems, const/enum, type arrays, dependentRequired, patternProperties, unevaluatedProperties, "
         "$defs/$ref, anyOf/oneOf/allOf, nested in properties / items / $defs / additionalProperties) x versions {2019-09, draft-07, OpenAPI 3.0, OpenAPI 3.1} x "
         "deserialization/serialization schema x JSON data (atoms, model-valid data, boundary mutants). A case = (type signature, entry, version, datum); distinct by hash.")
@@ -149,6 +149,19 @@ def check_program(env, prog, label, ndata):
                     env.violation({"kind": "instance-set-differs", "version": vname, "accepted_by": "2020-12" if a else vname, "rejecting_keywords": kws},
                                   {**wit, "datum": d, "schema_2020_12": base, "schema_target": whole})
                     break
+    # ---- definitions merged from both sides (deserialization + serialization given together): vocabulary at every level
+    for vname, dialect in TARGETS.items():
+        version = getattr(JsonSchemaVersion, vname)
+        od = harness.call(definitions_schema, deserialization=[prog.T], serialization=[prog.T], version=version, all_refs=True)
+        if od.kind != "ok":
+            env.count("merged_definitions_refused_or_failed")  # "different schemas for deserialization and serialization" is a legitimate refusal
+            continue
+        env.count("merged_definitions_walks")
+        merged = json.loads(json.dumps(od.value))
+        bad = jo.foreign_keywords({"components": {"schemas": merged}}, dialect)
+        if bad:
+            env.violation({"kind": "foreign-keyword", "version": vname, "entry": "definitions_schema(deserialization+serialization)", "keywords": sorted({k for _, k in bad})[:4]},
+                          {"program": prog.source, "label": label, "version": vname, "positions": [["/".join(map(str, p_)), k] for p_, k in bad[:6]], "definitions": merged})
     env.count("programs")
 
 
